@@ -359,10 +359,29 @@ func init() {
 			return
 		}
 		n := len(b.respBody)
-		kind := c.Free("fault", 8)
+		kind := c.Free("fault", 9)
 		desc := ""
 		mut := func(r *world.Reply) {}
 		switch kind {
+		case 8: // an end-of-stream frame whose payload is one JSON document FOLLOWED BY MORE (length honoured)
+			if p.Target != wire.ConnectStream {
+				c.Skip()
+				return
+			}
+			offs := frameOffsets(b.respBody)
+			last := offs[len(offs)-1]
+			if b.respBody[last]&0x01 != 0 {
+				c.Skip() // (compressed end frame: the tail would have to go inside the compressed stream)
+				return
+			}
+			tail := []string{"junk", `{"error":{"code":"data_loss"}}`, "}", "\x00", ",{}"}[c.Free("tail", 5)]
+			desc = fmt.Sprintf("end-of-stream payload followed by %q inside the frame", tail)
+			mut = func(r *world.Reply) {
+				body := append([]byte(nil), r.Out.Body[:last+5]...)
+				payload := append(append([]byte(nil), r.Out.Body[last+5:]...), tail...)
+				binary.BigEndian.PutUint32(body[1+last:], uint32(len(payload)))
+				r.Out.Body = append(body, payload...)
+			}
 		case 7: // body ends after every proper prefix, but the status (HTTP trailers) still says what it says
 			if n == 0 || p.Target != wire.GRPC {
 				c.Skip()
@@ -493,7 +512,7 @@ func init() {
 				mut = func(r *world.Reply) { r.Out.Body = append(append([]byte(nil), r.Out.Body...), b.respBody[:last]...) }
 			}
 		}
-		c.Attr("fault", []string{"early-return", "flag", "length", "bitflip", "content-length", "missing-end", "after-end", "cut-keep-status"}[kind])
+		c.Attr("fault", []string{"early-return", "flag", "length", "bitflip", "content-length", "missing-end", "after-end", "cut-keep-status", "end-payload-trailing-data"}[kind])
 		c.Attr("~detail", desc)
 		var id ideal
 		v := p.run(runOpts{Responder: p.strictResponder(nil), Reply: func(r *world.Reply) {
